@@ -9,15 +9,16 @@ package main
 
 import (
 	"crypto/sha1"
-	"io"
-	"log"
 	"encoding/json"
 	"fmt"
+	"io"
+	"log"
 	"os"
 	"path/filepath"
 	"sort"
 	"strconv"
 	"strings"
+	"sync"
 	"time"
 )
 
@@ -68,7 +69,11 @@ func (c *Ctx) Fatal(format string, a ...interface{}) {
 }
 
 // Violate records a violation.
+var violMu sync.Mutex
+
 func (c *Ctx) Violate(v Violation) {
+	violMu.Lock()
+	defer violMu.Unlock()
 	c.viol = append(c.viol, v)
 }
 
@@ -151,6 +156,19 @@ func loadKnown() []knownFinding {
 			Key: strings.TrimPrefix(f[1], "key="), ID: strings.TrimPrefix(f[1], "key="), What: strings.Join(f[2:], " ")})
 	}
 	return out
+}
+
+// curCtx is the running check (for the hang handler of CompileLimit).
+var curCtx *Ctx
+var abortOnce sync.Once
+
+// abortNow records v, reports what has been found so far and ends the process.
+func (c *Ctx) abortNow(v Violation) {
+	abortOnce.Do(func() {
+		c.Violate(v)
+		os.Exit(c.finish())
+	})
+	select {} // another goroutine is already finishing
 }
 
 func (c *Ctx) finish() int {
@@ -236,6 +254,7 @@ func main() {
 		os.Exit(0)
 	}
 	c := &Ctx{ID: id, Tier: "quick", Seed: 1, Start: time.Now(), Workers: 16}
+	curCtx = c
 	if t := os.Getenv("VERIF_TIER"); t == "thorough" || t == "quick" {
 		c.Tier = t
 	}
